@@ -39,6 +39,8 @@ func (r *Replica) TreeAt(height int64) (tree mkvs.ImmutableKeyValueTree, closer 
 // returns the sorted (key, value) pairs.
 func DumpState(r *Replica, height int64) (kvs []KV, err error) {
 	defer r.guard("DumpState", &err)
+	r.srvMu.RLock()
+	defer r.srvMu.RUnlock()
 	st, err := abciAPI.NewImmutableStateAt(context.Background(), r.Srv.State(), height)
 	if err != nil {
 		return nil, err
@@ -143,6 +145,8 @@ type StakingDump struct {
 // DumpStaking returns the typed staking dump at height (0 = latest).
 func DumpStaking(r *Replica, height int64) (d *StakingDump, err error) {
 	defer r.guard("DumpStaking", &err)
+	r.srvMu.RLock()
+	defer r.srvMu.RUnlock()
 	ctx := context.Background()
 	ist, err := abciAPI.NewImmutableStateAt(ctx, r.Srv.State(), height)
 	if err != nil {
@@ -261,6 +265,8 @@ func DumpStaking(r *Replica, height int64) (d *StakingDump, err error) {
 // Account queries one staking account at height (0 = latest).
 func (r *Replica) Account(height int64, addr staking.Address) (acc *staking.Account, err error) {
 	defer r.guard("Account", &err)
+	r.srvMu.RLock()
+	defer r.srvMu.RUnlock()
 	ist, err := abciAPI.NewImmutableStateAt(context.Background(), r.Srv.State(), height)
 	if err != nil {
 		return nil, err
@@ -272,6 +278,8 @@ func (r *Replica) Account(height int64, addr staking.Address) (acc *staking.Acco
 // Epoch returns (current epoch, height at which it started) at height (0 = latest).
 func (r *Replica) Epoch(height int64) (ep beacon.EpochTime, at int64, err error) {
 	defer r.guard("Epoch", &err)
+	r.srvMu.RLock()
+	defer r.srvMu.RUnlock()
 	ist, err := abciAPI.NewImmutableStateAt(context.Background(), r.Srv.State(), height)
 	if err != nil {
 		return 0, 0, err
@@ -283,6 +291,8 @@ func (r *Replica) Epoch(height int64) (ep beacon.EpochTime, at int64, err error)
 // Proposals lists the governance proposals at height (0 = latest).
 func (r *Replica) Proposals(height int64) (ps []*governance.Proposal, err error) {
 	defer r.guard("Proposals", &err)
+	r.srvMu.RLock()
+	defer r.srvMu.RUnlock()
 	ist, err := abciAPI.NewImmutableStateAt(context.Background(), r.Srv.State(), height)
 	if err != nil {
 		return nil, err
@@ -294,6 +304,8 @@ func (r *Replica) Proposals(height int64) (ps []*governance.Proposal, err error)
 // CurrentValidators returns the scheduler's current validator set (consensus key hex -> power).
 func (r *Replica) CurrentValidators(height int64) (m map[string]int64, err error) {
 	defer r.guard("CurrentValidators", &err)
+	r.srvMu.RLock()
+	defer r.srvMu.RUnlock()
 	ist, err := abciAPI.NewImmutableStateAt(context.Background(), r.Srv.State(), height)
 	if err != nil {
 		return nil, err
